@@ -257,7 +257,7 @@ BOOL_PREDICATES = {"core::option::Option::is_some": "Some", "core::option::Optio
                    "core::result::Result::is_ok": "Ok", "core::result::Result::is_err": "Err"}
 
 
-def reachable_ps(fn, start, removed=(), init=None, parents=None):
+def reachable_ps(fn, start, removed=(), init=None, parents=None, edge_ok=None):
     """like reachable(), but a path that has assigned `_x = Enum::V(..)` (aggregate) and reaches
     `switch discriminant(_x)` with no redefinition in between follows only V's edge (the parser macros'
     `let r = match .. { .. => Fail(..) }; match r { .. }` shape).  Knowledge is dropped on any other
@@ -378,7 +378,7 @@ def reachable_ps(fn, start, removed=(), init=None, parents=None):
             k.pop(t["place"]["l"], None)
         fk = frozenset(k.items())
         for n in nxt:
-            if n in removed:
+            if n in removed or (edge_ok is not None and not edge_ok(b, n)):
                 continue
             key = (n, fk)
             if key not in seen:
